@@ -357,3 +357,72 @@ def run(ctx):
     layout_rules(ctx)
     csr_rules(ctx)
     slot_rules(ctx)
+    routing_rule(ctx)
+    # the direct sparse assembly of user forms is the same scatter-add (R13.2)
+    from . import c13
+
+    c13.assemble_rule(ctx)
+
+
+def routing_rule(ctx):
+    """R3.6: Assembly routes slot k of every group that provides it to the k-th global array: interpreted with one group
+    per slot pattern (only K, only C, only M, only F, all four) and a recording stub for the reduction."""
+    from types import SimpleNamespace
+
+    from ..repo import FuncInfo
+    from ..xarray import Lbl
+
+    repo = ctx.repo
+    r = ctx.rule("R3.6", "slot routing: for k in (K, C, M, F) the k-th assembled array receives the k-th element array of every group that provides one (no group is filtered out because its other slots are empty), matrices for k < 3 and a vector for k = 3", min_instances=4)
+    simu = repo.cls(SIMU)
+    fa = simu.methods["Assembly"]
+    class G:
+        def __init__(self, tag):
+            self.tag = tag
+
+    groups = [G(f"g{i}") for i in range(5)]
+    pats = [(0,), (1,), (2,), (3,), (0, 1, 2, 3)]
+    table = {g: tuple(Lbl("X", g.tag, k) if k in pat else None for k in range(4)) for g, pat in zip(groups, pats)}
+    calls = []
+
+    def hook(fn, args, kwargs):
+        if isinstance(fn, FuncInfo) and fn.name.endswith("__Assemble_csr"):
+            calls.append((dict(args[0]), args[3] if len(args) > 3 else kwargs.get("isMatrix")))
+            return Lbl("assembled", len(calls) - 1)
+        if isinstance(fn, FuncInfo) and fn.name in ("Tic", "Tac"):
+            return None
+        return NotImplemented
+
+    def asm(d, dof_n, Ndof, isMatrix):
+        calls.append((dict(d), isMatrix))
+        return Lbl("assembled", len(calls) - 1)
+
+    obj = XObj(simu, dict(Get_dof_n=lambda pt=None: 2, _Simu__Get_Ndof=lambda pt=None: 10, Construct_local_matrix_system=lambda pt: dict(table), _verbosity=False, _Simu__Assemble_csr=asm))
+    I = Interp(repo, extra_builtins={"Tic": lambda *a, **k: SimpleNamespace(Tac=lambda *a, **k: 0.0)})
+    I.call_hook = hook
+    out = I.call_function(fa, [Opaque("pt")], self_obj=obj)
+    names = "KCMF"
+    if not (isinstance(out, tuple) and len(out) == 4 and len(calls) == 4):
+        r.instance(fn=fa.qualname)
+        r.fail(fa.qualname, "shape", fa.file, fa.lineno, "_Simu.Assembly", f"Assembly makes {len(calls)} reductions and returns {type(out).__name__}; expected 4 and a 4-tuple")
+        return
+    for k in range(4):
+        r.instance(fn=fa.qualname)
+        idx = out[k].v[1] if isinstance(out[k], Lbl) and len(out[k].v) == 2 and out[k].v[0] == "assembled" else None
+        bad = None
+        if idx is None or not (0 <= idx < 4):
+            bad = f"position {k} of the result is not one of the assembled arrays"
+        else:
+            d, is_mat = calls[idx]
+            for g, pat in zip(groups, pats):
+                v = d.get(g)
+                if k in pat and v != Lbl("X", g.tag, k):
+                    bad = f"group providing {'only ' if len(pat) == 1 else ''}{''.join(names[q] for q in pat)} does not reach the {names[k]} reduction with its {names[k]}_e (got {v!r}): its contribution is lost"
+                if k not in pat and v is not None:
+                    bad = f"the {names[k]} reduction receives {v!r} from a group that provides no {names[k]}_e"
+            if bool(is_mat) != (k < 3):
+                bad = f"the {names[k]} reduction is flagged isMatrix={is_mat}"
+        if bad:
+            r.fail(fa.qualname, f"slot:{names[k]}", fa.file, fa.lineno, "_Simu.Assembly", bad)
+        else:
+            r.ok(f"{names[k]} <- slot {k} of every group that provides it")
